@@ -136,7 +136,7 @@ def cmd_check(argv):
     scen_params = {}
     for sc in spec['scenarios']:
         mod = sc['module']
-        n = sc[tier]
+        n = max(1, int(sc[tier] * float(os.environ.get('VERIF_SCALE', '1') or 1)))  # VERIF_SCALE: deeper / shallower sweeps on demand
         params = sc.get('params', {})
         scen_params[mod] = params
         cap = sc.get('wall_cap', {}).get(tier, 1200.0 if tier == 'thorough' else 240.0)
